@@ -363,10 +363,12 @@ def Tx.coinbase (tx : Tx) : Addr := match tx.kind with | .self => CALLER | _ => 
 def Tx.target (tx : Tx) : Addr :=
   match tx.kind with | .xfer => RECIP | .tocb => COINBASE | .self => RECIP | .call => CONTRACT
 
-def Tx.feeEnv (h : Handler) (tx : Tx) : FeeEnv :=
+def Tx.feeEnvOf (spec : Spec) (optHandles : Bool) (tx : Tx) : FeeEnv :=
   { caller := CALLER, coinbase := tx.coinbase, gasPrice := tx.gasPrice, prio := tx.prio,
-    basefee := tx.basefee, london := h.spec.london,
-    l1 := if h.optHandles then tx.l1.map (fun c => (c, 0)) else none }
+    basefee := tx.basefee, london := spec.london,
+    l1 := if optHandles then tx.l1.map (fun c => (c, 0)) else none }
+
+def Tx.feeEnv (h : Handler) (tx : Tx) : FeeEnv := tx.feeEnvOf h.spec h.optHandles
 
 inductive TxResult
   | ok
@@ -375,24 +377,25 @@ inductive TxResult
   deriving DecidableEq, Repr
 
 /-- `Env::validate_tx` restricted to the fee fields the harness varies (same on optimism handles) -/
-def validateFees (h : Handler) (tx : Tx) : Option String :=
-  let e := tx.feeEnv h
-  if h.spec.london then
+def validateFees (spec : Spec) (tx : Tx) : Option String :=
+  let e := tx.feeEnvOf spec false
+  if spec.london then
     if (match tx.prio with | some p => decide (p > tx.gasPrice) | none => false) then some "PriorityFeeGreaterThanMaxFee"
     else if e.effGasPrice < tx.basefee then some "GasPriceLessThanBasefee"
     else none
   else none
 
-/-- `(result, gas_used, returned state)`; on `err` no state is returned -/
-def transact (h : Handler) (db : Db) (tx : Tx) : TxResult × Nat × JState :=
-  let e := tx.feeEnv h
-  match validateFees h tx with
-  | some err => (.err err, 0, fun _ => none)
+/-- everything up to and including `reimburse_caller` — it does not depend on the reward slot:
+`error e` = rejected by validation, `ok (result, gas_used, journal state)` -/
+def beforeReward (spec : Spec) (optHandles : Bool) (db : Db) (tx : Tx) : Except String (TxResult × Nat × JState) :=
+  let e := tx.feeEnvOf spec optHandles
+  match validateFees spec tx with
+  | some err => .error err
   | none =>
     -- validation.tx_against_state: load the caller
     let st : JState := load db (fun _ => none) CALLER
     -- pre_execution.deduct_caller (+ L1 cost on optimism handles)
-    let l1 := if h.optHandles then tx.l1.getD 0 else 0
+    let l1 := if optHandles then tx.l1.getD 0 else 0
     let st := modifyAcct st CALLER (fun a =>
       { a with bal := U256.saturatingSub (U256.saturatingSub a.bal (U256.saturatingMul tx.gasLimit e.effGasPrice)) l1,
                nonce := a.nonce + 1, touched := true })
@@ -400,7 +403,7 @@ def transact (h : Handler) (db : Db) (tx : Tx) : TxResult × Nat × JState :=
     let tgt := tx.target
     let st := load db st tgt
     let tbal := (loaded db st tgt).bal
-    let overflow : Bool := decide (tbal + tx.value ≥ W) && decide (tgt ≠ CALLER)
+    let overflow : Bool := decide (tbal + tx.value ≥ W)
     let (res, used, st) : TxResult × Nat × JState :=
       if overflow then (.halt "OverflowPayment", tx.gasLimit, st)
       else
@@ -409,8 +412,14 @@ def transact (h : Handler) (db : Db) (tx : Tx) : TxResult × Nat × JState :=
         -- the contract reads BALANCE(COINBASE): loads it, no touch
         let st := if tx.kind = .call then load db st tx.coinbase else st
         (.ok, tx.used, st)
-    let st := reimburseCaller db e (tx.gasLimit - used) st
-    match rewardStage h.reward db e used st with
+    .ok (res, used, reimburseCaller db e (tx.gasLimit - used) st)
+
+/-- `(result, gas_used, returned state)`; on `err` no state is returned -/
+def transact (h : Handler) (db : Db) (tx : Tx) : TxResult × Nat × JState :=
+  match beforeReward h.spec h.optHandles db tx with
+  | .error err => (.err err, 0, fun _ => none)
+  | .ok (res, used, st) =>
+    match rewardStage h.reward db (tx.feeEnv h) used st with
     | none => (.err "Custom", 0, fun _ => none)
     | some st => (res, used, st)
 
